@@ -9,6 +9,7 @@ package refmatch
 
 import (
 	"encoding/json"
+	"reflect"
 	"sort"
 	"strings"
 )
@@ -55,6 +56,18 @@ func Num(x interface{}) (float64, bool) {
 	case int64:
 		return float64(v), true
 	case int32:
+		return float64(v), true
+	case uint64:
+		return float64(v), true
+	case uint32:
+		return float64(v), true
+	case int16:
+		return float64(v), true
+	case int8:
+		return float64(v), true
+	case uint16:
+		return float64(v), true
+	case uint8:
 		return float64(v), true
 	}
 	return 0, false
@@ -315,9 +328,34 @@ func canon(x interface{}) interface{} {
 			n[i] = y
 		}
 		return canon(n)
+	case nil, bool, string:
+		return x
+	}
+	// other Go-typed slices/maps (e.g. []float64, []int64 exported by the
+	// JavaScript runtime)
+	rv := reflect.ValueOf(x)
+	switch rv.Kind() {
+	case reflect.Slice:
+		n := make([]interface{}, rv.Len())
+		for i := range n {
+			n[i] = rv.Index(i).Interface()
+		}
+		return canon(n)
+	case reflect.Map:
+		if rv.Type().Key().Kind() == reflect.String {
+			n := make(map[string]interface{}, rv.Len())
+			for _, k := range rv.MapKeys() {
+				n[k.String()] = rv.MapIndex(k).Interface()
+			}
+			return canon(n)
+		}
 	}
 	return x
 }
+
+// Canon exposes the canonical form (numbers as float64, arrays as sorted
+// sets, Go-typed containers as JSON containers).
+func Canon(x interface{}) interface{} { return canon(x) }
 
 type byKey struct {
 	keys []string
